@@ -177,6 +177,17 @@ CHECKS = {
 
 NOT_YET = {}
 
+EXTRA2 = {
+ "C05": " A table of every (target type, source type) pair for += -= *= /= %= is judged as well (cells inside the listed signed->wider-unsigned class excluded and counted); witness programs of the listed block-scope finding are judged every run.",
+ "C06": " A numbering sweep compiles the same programs 60-400 times on one fresh compiler (three offsets) so that pending operations get every temporary number; witness programs of the four listed evaluation-order findings are judged every run.",
+ "C08": " Template callees whose return consumes an operation, callers with calls in discarded ?: arms, and a call-site part (explicit, alias and N registers passed by reference; the caller's text through the C-body checker) run as well.",
+ "C09": " Witness programs of the listed sizeof finding are judged every run.",
+ "C11": " needs_hi / needs_pkt templates are compiled through transform_insn; a HexOp struct passed by value is an issue.",
+ "C13": " Templates cover postfix writes of predicates, constant conditions and assignments to aliases whose name starts with p.",
+ "C14": " Failing compilations include ones whose first leaf already set an attribute flag; subjects include operations whose value shares the type object of an immediate, a literal or a register.",
+ "C16": " All operand-spelling cells of C07 are compared across the layouts; both texts are executed with literal register-bank reads (no read is discarded as ambiguous).",
+}
+
 # what later rounds added to a check (appended to its level text)
 EXTRA = {
  "C03": " The table also covers chained assignment through locals and registers, compound assignment (+= -= *=) to every target type, and "
@@ -225,7 +236,7 @@ def main():
             "evidence_file": f"evidence/{pid}.json",
             "replay_cmd_template": f"./check {pid} --replay {{path}}",
             "engine": c.get("engine", "vlib"),
-            "level_claimed": {"category": "exploration", "text": c["text"] + EXTRA.get(pid, ""), "design_ref": "DESIGN.md section " + c["design"]},
+            "level_claimed": {"category": "exploration", "text": c["text"] + EXTRA.get(pid, "") + EXTRA2.get(pid, ""), "design_ref": "DESIGN.md section " + c["design"]},
             "level_note": c["note"],
             "technique": c["technique"],
         })
